@@ -1316,7 +1316,8 @@ func (p *Policy) validURL(rawurl string) (string, bool) {
 			}
 
 			for _, urlPolicy := range urlPolicies {
-				if urlPolicy(u) {
+				// a nil check (which the builder accepts) approves nothing
+				if urlPolicy != nil && urlPolicy(u) {
 					return u.String(), true
 				}
 			}
